@@ -131,6 +131,22 @@ class read_long:
         and decoder.fo.data == old.decoder.fo.data and decoder.fo.eof_hit == old.decoder.fo.eof_hit)
 
 
+@target(RD, "read_long", behavior="bare")
+class read_long_bare:
+    """called without a schema (the codec block readers read a length with it)"""
+    types = dict(decoder="BinaryDecoder", writer_schema="py", named_schemas="py", reader_schema="py", options="dict")
+    ghosts = dict(z="int", rest="bytes")
+    requires = lambda decoder: z >= 0 and decoder.fo.rem == S.varint(z) + rest
+    modifies = ["decoder.fo"]
+    returns = "int"
+    call_behaviors = dict(read_long="default")
+    call_ghosts = {"read_long": dict(z=lambda: z, rest=lambda: rest)}
+    ensures = lambda decoder, result: (
+        result == S.unzigzag(z) and decoder.fo.rem == rest
+        and decoder.fo.pos == old.decoder.fo.pos + len(S.varint(z))
+        and decoder.fo.data == old.decoder.fo.data and decoder.fo.eof_hit == old.decoder.fo.eof_hit)
+
+
 @target(RD, "skip_long")
 class skip_long:
     types = dict(decoder="BinaryDecoder", writer_schema="py", named_schemas="dict")
